@@ -78,6 +78,12 @@ func c13hRun(h *vHarness, t *testing.T, handler *PodValidatingHandler, c *c13hCa
 	rawOld, decOld := c13hJSON(t, c.oldPod)
 	h.Op("pod 0 %s", c13EncPod(decNew))
 	h.Op("pod 1 %s", c13EncPod(decOld))
+	if c13HasResizeStatus(decNew) { // ext6: what survives the JSON round trip of the request
+		h.Op("cstatus 0 %s", c13EncStatus(decNew))
+	}
+	if c13HasResizeStatus(decOld) {
+		h.Op("cstatus 1 %s", c13EncStatus(decOld))
+	}
 	h.Op("hvalidate %d %d %d %d %d %d %d %d %d %d %d", c.op, c.sub, vB(c.res == 0), vB(c.hasObj), vB(c.hasOld),
 		vB(c.delOld), vB(c.delNew), vB(c.finalizers), vB(c.oldFinalizers), vB(c.statusOnly), vB(c.gate))
 
@@ -228,12 +234,14 @@ func TestVerifC13ValidatingHandle(t *testing.T) {
 		if r.Chance(1, 30) {
 			c.res = r.Range(1, len(c13hResourceNames)-1)
 		}
+		c13DecorateStatus(h, r, c.newPod, c.oldPod) // ext6: in-place-resize status (the last draws of the case)
 		c13hRun(h, t, handler, c)
 		h.End()
 	}
 	h.Close("one raw admission request per case through PodValidatingHandler.Handle: operation (CREATE/UPDATE/DELETE/CONNECT) x sub-resource " +
 		"(none, status, ephemeralcontainers, binding, eviction, resize) x resource (pods / foreign) x object / old object present or missing x " +
-		"metadata.deletionTimestamp on none / old / new / both objects x finalizers x status-only update x feature gate; pods as in the validating " +
+		"metadata.deletionTimestamp on none / old / new / both objects x finalizers x status-only update x feature gate x in-place-resize status " +
+		"(1/3 of the cases, as in the validating stream; it travels in the request's JSON); pods as in the validating " +
 		"stream, old pods perturbed copies or identical; non-trivial = a pod CREATE/UPDATE whose new pod has a QoS or a priority class; distinct by op lines")
 }
 
@@ -317,4 +325,147 @@ func TestVerifC13ValidatingHandleExhaustive(t *testing.T) {
 	h.Extra("exhaustive", fmt.Sprintf("4 operations x 3 sub-resources x 2 resources x object x old object x deletionTimestamp old x new x finalizers on new x on old x 8 update kinds (+ gate slice): %d cases", idx))
 	h.Close("exhaustive enumeration of the validating entry point's dispatch: operation x sub-resource x resource x object / old object present x " +
 		"deletionTimestamp on old / new x finalizers x update kind (same, status only, 4 QoS changes, 2 priority-class changes); non-trivial as in the random stream")
+}
+
+// TestVerifC13ValidatingResize (ext6, both tiers): a small-scope enumeration of "running pod whose status differs from
+// its spec".  Permitted QoS / priority pairs only (so the resource clauses decide) x CPU shape of the SPEC x batch request
+// x sidecar x what status.containerStatuses[] / initContainerStatuses[] report relative to the spec (absent, equal, above
+// in whole CPUs, below, empty, allocatedResources only, without the batch entries, with an added batch entry, an entry
+// naming no container) x resize condition x CREATE / UPDATE.  Every case goes through PodValidatingHandler.Handle as raw
+// JSON (c13hRun: op hvalidate, oracle fingerprints C13:handle-*) and through clusterColocationProfileValidatingPod on
+// the decoded objects (op validate, oracle fingerprints C13:admit-*).  The oracle judges the SPEC.
+func TestVerifC13ValidatingResize(t *testing.T) {
+	h := vOpen("C13")
+	if h == nil {
+		t.Skip("VERIF_OUT not set")
+	}
+	handler := c13hHandler()
+	type qp struct {
+		qos  string
+		prio int32 // 0 = spec.priority unset
+	}
+	pairs := []qp{{"LSR", 9500}, {"LSE", 9500}, {"LS", 9500}, {"LS", 7500}, {"BE", 5500}, {"", 0}}
+	cpuShapes := []string{"integral", "fractional", "split", "fractional-split", "missing", "zero"}
+	batchShapes := []string{"none", "positive"}
+	statusShapes := []string{"absent", "equal", "up-whole", "down", "empty", "alloc-only", "no-batch", "adds-batch", "unknown-name"}
+	build := func(p qp, cpu, batch string, sidecar bool) *corev1.Pod {
+		pod := &corev1.Pod{ObjectMeta: metav1.ObjectMeta{Namespace: "default", Name: "p", Labels: map[string]string{}}}
+		if p.qos != "" {
+			pod.Labels[c13LabelQoS] = p.qos
+		}
+		if p.prio != 0 {
+			v := p.prio
+			pod.Spec.Priority = &v
+		}
+		c0 := corev1.Container{Name: "c0", Resources: corev1.ResourceRequirements{Requests: corev1.ResourceList{"memory": resource.MustParse("1Gi")}}}
+		var c1 *corev1.Container
+		switch cpu {
+		case "integral":
+			c0.Resources.Requests["cpu"] = resource.MustParse("2")
+		case "fractional":
+			c0.Resources.Requests["cpu"] = resource.MustParse("1500m")
+		case "split": // 500m + 1500m = 2 CPUs
+			c0.Resources.Requests["cpu"] = resource.MustParse("500m")
+			c1 = &corev1.Container{Name: "c1", Resources: corev1.ResourceRequirements{Requests: corev1.ResourceList{"cpu": resource.MustParse("1500m")}}}
+		case "fractional-split": // 500m + 1 = 1500m
+			c0.Resources.Requests["cpu"] = resource.MustParse("500m")
+			c1 = &corev1.Container{Name: "c1", Resources: corev1.ResourceRequirements{Requests: corev1.ResourceList{"cpu": resource.MustParse("1")}}}
+		case "zero":
+			c0.Resources.Requests["cpu"] = resource.MustParse("0")
+		}
+		if batch == "positive" {
+			c0.Resources.Requests["kubernetes.io/batch-cpu"] = resource.MustParse("1000")
+		}
+		pod.Spec.Containers = []corev1.Container{c0}
+		if c1 != nil {
+			pod.Spec.Containers = append(pod.Spec.Containers, *c1)
+		}
+		if sidecar { // a restartable init container asking for half a CPU, and an ordinary one (its status is never read)
+			always := corev1.ContainerRestartPolicyAlways
+			pod.Spec.InitContainers = []corev1.Container{
+				{Name: "c10", RestartPolicy: &always, Resources: corev1.ResourceRequirements{Requests: corev1.ResourceList{"cpu": resource.MustParse("500m")}}},
+				{Name: "c11", Resources: corev1.ResourceRequirements{Requests: corev1.ResourceList{"cpu": resource.MustParse("250m")}}}}
+		}
+		return pod
+	}
+	idx := 0
+	for _, p := range pairs {
+		for _, cpu := range cpuShapes {
+			for _, batch := range batchShapes {
+				for _, sidecar := range []bool{false, true} {
+					for _, ss := range statusShapes {
+						for cond := range c13CondKinds {
+							for op := 0; op < 2; op++ {
+								r := h.Begin(idx)
+								idx++
+								if r == nil {
+									continue
+								}
+								newPod := build(p, cpu, batch, sidecar)
+								switch ss {
+								case "equal":
+									c13SetStatus(nil, newPod, 0, 0)
+								case "up-whole":
+									c13SetStatus(nil, newPod, 1, 4)
+								case "down":
+									c13SetStatus(nil, newPod, 2, 2)
+								case "empty":
+									c13SetStatus(nil, newPod, 3, 4)
+								case "alloc-only":
+									c13SetStatus(nil, newPod, -1, 1)
+								case "no-batch":
+									c13SetStatus(nil, newPod, 6, 6)
+								case "adds-batch":
+									c13SetStatus(nil, newPod, 7, 0)
+								case "unknown-name":
+									newPod.Status.ContainerStatuses = []corev1.ContainerStatus{{Name: "c77",
+										Resources: &corev1.ResourceRequirements{Requests: corev1.ResourceList{"cpu": resource.MustParse("500m"), "kubernetes.io/batch-cpu": resource.MustParse("1000")}}}}
+								}
+								c13SetResizeCond(newPod, cond)
+								c := &c13hCase{op: op, hasObj: true, hasOld: op == 1, newPod: newPod}
+								// the old object of the UPDATE: the same pod before the kubelet reported anything (CREATE: unused, not sent)
+								c.oldPod = build(p, cpu, batch, sidecar)
+								h.Tag("rz:status:" + ss + "/" + c13CondKinds[cond])
+								h.Tag("rz:spec:" + p.qos + "/cpu:" + cpu + "/batch:" + batch)
+								c13hRun(h, t, handler, c)
+								// the same request's decoded objects through the colocation validator itself
+								_, decNew := c13hJSON(t, c.newPod)
+								_, decOld := c13hJSON(t, c.oldPod)
+								h.Op("validate 0 %d", op)
+								req := admission.Request{AdmissionRequest: admissionv1.AdmissionRequest{
+									Resource:  metav1.GroupVersionResource{Group: "", Version: "v1", Resource: "pods"},
+									Operation: c13hOperations[op], Object: runtime.RawExtension{}, OldObject: runtime.RawExtension{}}}
+								var allowed bool
+								if h.Guard(func() { allowed, _, _ = handler.clusterColocationProfileValidatingPod(context.TODO(), req, decNew, decOld) }) {
+									h.Obs("panic")
+									h.End()
+									continue
+								}
+								h.Obs("verdict %d", vB(allowed))
+								spec := build(p, cpu, batch, sidecar) // the oracle reads the declared pod
+								qos := c13OracleQoS(spec)
+								milli := c13CeilDiv(c13OraclePodRequest(spec, "cpu"), 1000000)
+								fractional := (qos == "LSR" || qos == "LSE") && new(big.Int).Mod(milli, big.NewInt(1000)).Sign() != 0
+								batchNonBE := c13OraclePodRequest(spec, "kubernetes.io/batch-cpu").Sign() > 0 && qos != "BE"
+								h.Tag(fmt.Sprintf("rz:verdict:%v", allowed))
+								if allowed && fractional {
+									h.Fail("C13:admit-fractional-cpu", "admitted %s pod declaring %s milli-CPU (status: %s, resize condition: %s)", qos, milli, ss, c13CondKinds[cond])
+								}
+								if allowed && batchNonBE {
+									h.Fail("C13:admit-batch-non-be", "admitted QoS %q pod declaring batch resources (status: %s, resize condition: %s)", qos, ss, c13CondKinds[cond])
+								}
+								h.End()
+							}
+						}
+					}
+				}
+			}
+		}
+	}
+	h.Extra("exhaustive", fmt.Sprintf("6 permitted QoS/priority pairs x 6 CPU shapes x 2 batch shapes x sidecar x 9 status shapes x 6 resize conditions x CREATE/UPDATE: %d cases", idx))
+	h.Close("enumeration of running pods whose status differs from their spec: permitted QoS / priority pair x CPU shape of the spec {integral, fractional, " +
+		"two containers summing to a whole / a fractional number, missing, zero} x batch request x sidecar + ordinary init container x " +
+		"status.containerStatuses[].resources / allocatedResources {absent, equal, above in whole CPUs, below, empty, allocatedResources only, without the batch entries, " +
+		"with an added batch entry, an entry naming no container} x resize condition {none, Pending Deferred / Infeasible, InProgress, both} x CREATE / UPDATE, " +
+		"each through Handle (raw JSON) and through the colocation validator; non-trivial = the pod has a QoS or a priority class")
 }
